@@ -5,6 +5,7 @@ package main
 import (
 	"fmt"
 	"math"
+	"sort"
 	"strings"
 
 	"golang.org/x/perf/benchfmt"
@@ -137,4 +138,34 @@ func encPn(s *Stream) string {
 		return "-"
 	}
 	return strings.Join(parts, ",")
+}
+
+// rawCellsDigest: the cells of the real Tables keyed by the VALUES of their table, row and
+// column keys (not by key identity): count and FNV-1a of the sorted list of
+// "<table tuple>|<row tuple>|<col tuple>=<canonical multiset>". The specification side computes
+// the same from groupBy over the keys the C08 model projects from the RAW results, so keys that
+// the implementation merged or split show up even though the recorded stream is consistent
+// with the implementation's own keys.
+func rawCellsDigest(run *Run, s *Stream, specsOK bool) string {
+	if !specsOK {
+		return "-"
+	}
+	var items []string
+	for ti, tab := range run.tables.Tables {
+		tt := encTuple(tupleOf(run.tables.Keys[ti], s.TF))
+		for k, cell := range tab.Cells {
+			items = append(items, tt+"|"+encTuple(tupleOf(k.Row, s.RF))+"|"+encTuple(tupleOf(k.Col, s.CF))+"="+canon(cell.Sample.Values))
+		}
+	}
+	sort.Strings(items)
+	h := uint64(14695981039346656037)
+	for _, it := range items {
+		for i := 0; i < len(it); i++ {
+			h ^= uint64(it[i])
+			h *= 1099511628211
+		}
+		h ^= 10
+		h *= 1099511628211
+	}
+	return fmt.Sprintf("%d:%016x", len(items), h)
 }
